@@ -76,23 +76,19 @@ def run(p, led, tier):
         loop = _enclosing_for(pc)
         # gate calls on the same receiver
         gates = [c for c in calls_named(fi.node, "checkpoint") if isinstance(c.func, ast.Attribute) and src(c.func.value) == recv]
-        pass_edges = set()     # (node, label) edges on which the gate returned true
-        for g in gates:
-            gn = cfg.node_of(g)
-            if gn.kind != "test":
-                continue   # result not tested directly: no pass edge is recognised
-            for lab in ("T", "F"):
-                for atom, pol in edge_facts(gn.ast, lab):
-                    if atom is g and pol is True:
-                        pass_edges.add((gn, lab))
-        nogate_edges = set()   # edges on which "<recv>.checkpoint" is known falsy / None
+        # an out-edge of a test is *admitting* when its condition implies
+        # "this stage has no checkpoint  ∨  the checkpoint call returned true" (truth table over the test's atoms)
+        pass_edges = set()     # admitting edges that involve the gate call
+        nogate_edges = set()   # admitting edges that only say "no checkpoint"
         for t in cfg.nodes:
             if t.kind != "test":
                 continue
             for lab in ("T", "F"):
-                for atom, pol in edge_facts(t.ast, lab):
-                    if _is_nogate(atom, pol, recv):
-                        nogate_edges.add((t, lab))
+                verdict = _admitting(t.ast, lab, recv, gates)
+                if verdict == "gate":
+                    pass_edges.add((t, lab))
+                elif verdict == "nogate":
+                    nogate_edges.add((t, lab))
         head = cfg.node_of(loop.iter) if isinstance(loop, ast.For) else (cfg.node_of(loop.test) if loop is not None else None)
 
         def cut(a, b, lab, _pe=pass_edges, _ne=nogate_edges, _h=head):
@@ -269,6 +265,61 @@ def _is_nogate(atom, pol, recv):
         if isinstance(atom.ops[0], (ast.IsNot, ast.NotEq)):
             return pol is False
     return False
+
+
+def _leaf_atoms(e, out):
+    if isinstance(e, ast.BoolOp):
+        for v in e.values:
+            _leaf_atoms(v, out)
+    elif isinstance(e, ast.UnaryOp) and isinstance(e.op, ast.Not):
+        _leaf_atoms(e.operand, out)
+    else:
+        out.append(e)
+
+
+def _eval_atoms(e, asg):
+    if isinstance(e, ast.BoolOp):
+        vs = [_eval_atoms(v, asg) for v in e.values]
+        return all(vs) if isinstance(e.op, ast.And) else any(vs)
+    if isinstance(e, ast.UnaryOp) and isinstance(e.op, ast.Not):
+        return not _eval_atoms(e.operand, asg)
+    return asg[id(e)]
+
+
+def _admitting(test, label, recv, gates):
+    """'gate' / 'nogate' / None: does taking this edge imply (no checkpoint ∨ gate returned true)?"""
+    atoms = []
+    _leaf_atoms(test, atoms)
+    kinds = {}
+    for a in atoms:
+        if any(a is g for g in gates):
+            kinds[id(a)] = ("g", True)
+        elif _is_nogate(a, False, recv):      # atom true  <=> checkpoint present
+            kinds[id(a)] = ("c", True)
+        elif _is_nogate(a, True, recv):       # atom true  <=> checkpoint absent
+            kinds[id(a)] = ("c", False)
+        else:
+            kinds[id(a)] = ("o", None)
+    if not any(k[0] in ("g", "c") for k in kinds.values()) or len(atoms) > 8:
+        return None
+    uses_gate = any(k[0] == "g" for k in kinds.values())
+    for bits in itertools.product([False, True], repeat=len(atoms)):
+        asg = {id(a): b for a, b in zip(atoms, bits)}
+        val = _eval_atoms(test, asg)
+        if val != (label == "T"):
+            continue
+        present = None
+        passed = None
+        for a in atoms:
+            k, pol = kinds[id(a)]
+            if k == "c":
+                present = asg[id(a)] if pol else (not asg[id(a)])
+            if k == "g":
+                passed = asg[id(a)]
+        ok = (present is False) or (passed is True)
+        if not ok:
+            return None
+    return "gate" if uses_gate else "nogate"
 
 
 def _is_none(e):
